@@ -2,7 +2,7 @@
 From Coq Require Import List NArith ZArith Bool Lia.
 From LTV Require Import Common.Bytes Params_gen.
 From LTV.C07 Require Import Model.
-From LTV.C08 Require Import Model ProofsOrder ProofsLoad.
+From LTV.C08 Require Import Model ProofsOrder ProofsLoad ProofsTok.
 Import ListNotations.
 Local Open Scope N_scope.
 
@@ -24,13 +24,13 @@ Lemma load_inv : forall b u d, load H b u = LOk d ->
   valid_comp (d_name d) = true /\
   files_ok (d_files d) (d_size d) /\
   d_chunks d = size_chunks_of (d_size d) (d_chunk_size d) /\
-  d_chunk_size d <> 0 /\
+  fits (d_size d) (d_chunk_size d) /\ d_chunk_size d < two32 /\
   Forall (fun f => (f_r1 f, f_r2 f) = set_range (f_offset f) (f_size f) (d_chunk_size d)) (d_files d) /\
-  (d_multi d = true -> d_size d < two63) /\
   (d_multi d = false -> map f_path (d_files d) = [[d_name d]]) /\
-  d_chunks d <= N.of_nat (length (d_pieces d)) / 20 /\
+  N.of_nat (length (d_pieces d)) = u64 (20 * d_chunks d) /\
   (d_meta d = false -> d_size d <> 0) /\
   d_infohash d <> zero_hash /\
+  (int64_ok b = true -> d_size d < two63) /\
   (forall m, as_map b = LOk m -> has_key_map m k_info = true ->
      u = false /\
      exists info_v, get_key m k_info = LOk info_v /\
@@ -41,40 +41,63 @@ Proof.
   (* name *)
   apply negb_false_iff in E4.
   destruct a3 as [|nm| |]; simpl in E4, E5; try discriminate. injection E5 as <-.
+  (* chunk size *)
+  assert (Hcs : n < two32).
+  { match type of E7 with (if ?c then _ else _) = _ => destruct c end.
+    - inv_all E7. inversion E7; subst. reflexivity.
+    - inv_all E7. inversion E7; subst. unfold u32. apply N.mod_lt. discriminate. }
   (* the file list: three ways to get it *)
-  assert (FL : files_ok l n1 /\ n0 = size_chunks_of n1 n /\ n <> 0 /\
+  assert (FL : files_ok l n1 /\ n0 = size_chunks_of n1 n /\ fits n1 n /\
                Forall (fun f => (f_r1 f, f_r2 f) = set_range (f_offset f) (f_size f) n) l /\
-               (b0 = true -> n1 < two63) /\ (b0 = false -> map f_path l = [[nm]])).
-  { destruct (has_key a2 k_length) eqn:Hk1.
-    - destruct (parse_single_file a2 n) as [[[l' t'] c']| |] eqn:Ps; cbn [bind] in E9; try discriminate.
-      inversion E9; subst; clear E9.
-      destruct (parse_single_file_ok _ _ _ _ _ Ps) as (A & B & C & D & nm' & En & Ep).
+               (b0 = false -> map f_path l = [[nm]]) /\
+               (int64_ok (VMap a2) = true -> n1 < two63)).
+  { assert (SINGLE : forall cs l' t' c', parse_single_file a2 cs = LOk (l', t', c') ->
+              files_ok l' t' /\ c' = size_chunks_of t' cs /\ fits t' cs /\
+              Forall (fun f => (f_r1 f, f_r2 f) = set_range (f_offset f) (f_size f) cs) l' /\
+              (false = false -> map f_path l' = [[nm]]) /\ (int64_ok (VMap a2) = true -> t' < two63)).
+    { intros cs l' t' c' Ps.
+      destruct (parse_single_file_ok _ _ _ _ _ Ps) as (A & B & C & D & (nm' & En & Ep) & L).
       rewrite E3 in En. injection En as <-.
-      split; [exact A|split; [exact B|split; [exact C|split; [exact D|split; [intro; discriminate|intro; exact Ep]]]]].
+      split; [exact A|split; [exact B|split; [exact C|split; [exact D|split; [intro; exact Ep|]]]]].
+      intro Hi. destruct L as [[_ ->]|(len & Hk & ->)]; [reflexivity|].
+      unfold get_key in Hk. destruct (lookup k_length a2) as [lv|] eqn:Elk; [|discriminate]. injection Hk as ->.
+      pose proof (int64_ok_lookup _ _ _ Hi Elk) as Hz. simpl in Hz. unfold in_int64 in Hz.
+      apply andb_true_iff in Hz. destruct Hz as [_ Hz]. apply Z.leb_le in Hz.
+      unfold int64_max, two63 in *. lia. }
+    destruct (has_key a2 k_length) eqn:Hk1.
+    - destruct (parse_single_file a2 n) as [[[l' t'] c']| |] eqn:Ps; cbn [bind] in E9; try discriminate.
+      inversion E9; subst; clear E9. apply (SINGLE _ _ _ _ Ps).
     - destruct (has_key a2 k_files) eqn:Hk2.
       + destruct (get_key a2 k_files) as [fv| |]; cbn [bind] in E9; try discriminate.
         destruct (parse_multi_files fv n) as [[[l' t'] c']| |] eqn:Pm; cbn [bind] in E9; try discriminate.
         inversion E9; subst; clear E9.
         destruct (parse_multi_files_ok _ _ _ _ _ Pm) as (A & B & C & D & F).
-        split; [exact A|split; [exact C|split; [exact D|split; [exact F|split; [intro; exact B|intro; discriminate]]]]].
+        split; [exact A|split; [exact C|split; [exact D|split; [exact F|split; [intro; discriminate|intro; exact B]]]]].
       + destruct o as [[[l' t'] c']|]; try discriminate. inversion E9; subst; clear E9.
-        (* the list built by the meta-download branch of E7 *)
         destruct (match lookup k_meta a2 with Some (VInt z) => negb (z =? 0)%Z | _ => false end); [|inv_all E7; discriminate].
         inv_all E7. inversion E7; subst; clear E7.
-        match goal with Ps : parse_single_file a2 1 = LOk _ |- _ =>
-          destruct (parse_single_file_ok _ _ _ _ _ Ps) as (A & B & C & D & nm' & En & Ep) end.
-        rewrite E3 in En. injection En as <-.
-        split; [exact A|split; [exact B|split; [exact C|split; [exact D|split; [intro; discriminate|intro; exact Ep]]]]]. }
-  destruct FL as (F1 & F2 & F3 & F4 & F5 & F6).
-  apply N.ltb_ge in E16.
-  split; [exact E4|]. split; [exact F1|]. split; [exact F2|]. split; [exact F3|]. split; [exact F4|].
-  split; [exact F5|]. split; [exact F6|].
+        match goal with Ps : parse_single_file a2 1 = LOk _ |- _ => apply (SINGLE _ _ _ _ Ps) end. }
+  destruct FL as (F1 & F2 & F3 & F4 & F6 & F7).
+  apply negb_false_iff in E16. apply N.eqb_eq in E16.
+  split; [exact E4|]. split; [exact F1|]. split; [exact F2|]. split; [exact F3|]. split; [exact Hcs|].
+  split; [exact F4|]. split; [exact F6|].
   destruct a7 as [|ps| |]; simpl in E15; try discriminate. injection E15 as <-.
   split; [exact E16|].
   split.
   { intro Hm. rewrite Hm in E13. rewrite andb_true_r in E13. apply N.eqb_neq. exact E13. }
   split.
   { apply bytes_eqb_neq. exact E17. }
+  split.
+  { intro Hb. apply F7.
+    unfold as_map in E. destruct b as [| | |mb]; try discriminate. injection E as ->.
+    assert (Ha0 : int64_ok (VMap a0) = true).
+    { destruct (negb (has_key_map a k_info) && has_key_string a k_magnet).
+      - destruct (lookup k_magnet a) as [[|uri| |]|]; try discriminate.
+        eapply int64_ok_magnet; eassumption.
+      - injection E0 as <-. exact Hb. }
+    unfold get_key in E1. destruct (lookup k_info a0) as [iv|] eqn:Eli; [|discriminate]. injection E1 as ->.
+    pose proof (int64_ok_lookup _ _ _ Ha0 Eli) as Hiv.
+    unfold as_map in E2. destruct a1; try discriminate. injection E2 as <-. exact Hiv. }
   intros m Em Hi. assert (a = m) as <-.
   { unfold as_map in *. destruct b; try discriminate. congruence. }
   rewrite Hi in E0, E6. simpl in E0, E6. injection E0 as <-.
@@ -142,6 +165,20 @@ Proof.
   - apply valid_path_inside. split; [discriminate|]. constructor; [exact Hn|constructor].
 Qed.
 
+(* the STRING handed to the kernel is walked as: the root's own components, then exactly the
+   file's components (no '/' inside a component re-splits, no NUL truncates) *)
+Theorem frozen_tokens : forall b u d root f,
+  load H b u = LOk d -> In f (d_files d) ->
+  tokens (frozen_path (set_root_dir root) f) = tokens (set_root_dir root) ++ f_path f /\
+  mem_byte 0 (path_as_string (f_path f)) = false.
+Proof.
+  intros b u d root f Hl Hin.
+  destruct (paths_contained b u d root f Hl Hin) as (Ef & _ & _).
+  destruct (load_inv _ _ _ Hl) as (_ & Fo & _).
+  destruct Fo as [_ Fv _ _ _]. rewrite Forall_forall in Fv. destruct (Fv f Hin) as [Hne F].
+  rewrite Ef. split; [apply tokens_frozen; assumption | apply no_nul_path; exact F].
+Qed.
+
 Theorem no_dup_no_prefix : forall b u d,
   load H b u = LOk d -> no_prefix (map f_path (d_files d)).
 Proof. intros b u d Hl. destruct (load_inv _ _ _ Hl) as (_ & Fo & _). destruct Fo; assumption. Qed.
@@ -149,35 +186,66 @@ Proof. intros b u d Hl. destruct (load_inv _ _ _ Hl) as (_ & Fo & _). destruct F
 Theorem sizes_sum : forall b u d,
   load H b u = LOk d ->
   offsets_from 0 (d_files d) /\ sum_size (d_files d) = d_size d /\
-  (d_multi d = true -> d_size d < two63) /\ (d_meta d = false -> d_size d <> 0).
+  (int64_ok b = true -> d_size d < two63) /\ (d_meta d = false -> d_size d <> 0).
 Proof.
-  intros b u d Hl. destruct (load_inv _ _ _ Hl) as (_ & Fo & _ & _ & _ & Hb & _ & _ & Hz & _).
+  intros b u d Hl. destruct (load_inv _ _ _ Hl) as (_ & Fo & _ & _ & _ & _ & _ & _ & Hz & _ & Hb & _).
   destruct Fo. auto.
 Qed.
 
-(* what the loader does guarantee about the piece count *)
-Theorem piece_count_guarantee : forall b u d,
-  load H b u = LOk d ->
-  d_chunk_size d <> 0 /\
-  d_chunks d = ((d_size d + d_chunk_size d - 1) mod two64 / d_chunk_size d) mod two32 /\
-  20 * d_chunks d <= N.of_nat (length (d_pieces d)) /\
-  Forall (fun f => (f_r1 f, f_r2 f) = set_range (f_offset f) (f_size f) (d_chunk_size d)) (d_files d).
+(* the piece count is the exact ceiling, fits 32 bits, and 'pieces' holds exactly one 20-byte
+   hash per piece: none of the uint32/uint64 operations of the code wraps *)
+Theorem piece_count_matches : forall b u d,
+  int64_ok b = true -> load H b u = LOk d ->
+  d_chunk_size d <> 0 /\ d_size d < two63 /\
+  d_chunks d = (d_size d + d_chunk_size d - 1) / d_chunk_size d /\
+  d_chunks d < two32 /\
+  N.of_nat (length (d_pieces d)) = 20 * d_chunks d.
 Proof.
-  intros b u d Hl. destruct (load_inv _ _ _ Hl) as (_ & _ & Hc & Hcs & Hr & _ & _ & Hp & _).
-  split; [exact Hcs|]. split; [exact Hc|]. split; [|exact Hr].
-  pose proof (N.mul_div_le (N.of_nat (length (d_pieces d))) 20). lia.
+  intros b u d Hi Hl.
+  destruct (load_inv _ _ _ Hl) as (_ & _ & Hc & [Hcs Hfit] & Hcs32 & _ & _ & Hp & _ & _ & Hb & _).
+  specialize (Hb Hi).
+  assert (Eu : u64 (d_size d + d_chunk_size d - 1) = d_size d + d_chunk_size d - 1).
+  { unfold u64. apply N.mod_small. unfold two63, two32, two64 in *. lia. }
+  rewrite Eu in Hfit.
+  assert (Ec : d_chunks d = (d_size d + d_chunk_size d - 1) / d_chunk_size d).
+  { rewrite Hc. unfold size_chunks_of. rewrite Eu. unfold u32. apply N.mod_small. unfold two32 in *. lia. }
+  split; [exact Hcs|]. split; [exact Hb|]. split; [exact Ec|].
+  assert (d_chunks d < two32) by (rewrite Ec; unfold two32 in *; lia).
+  split; [assumption|].
+  rewrite Hp. unfold u64. apply N.mod_small. unfold two32, two64 in *. lia.
 Qed.
 
-(* ... and below 2^32 pieces the count is the exact ceiling *)
-Theorem piece_count_matches_small : forall b u d,
-  load H b u = LOk d -> d_size d < two63 -> d_chunk_size d < two32 ->
-  (d_size d + d_chunk_size d - 1) / d_chunk_size d < two32 ->
-  d_chunks d = (d_size d + d_chunk_size d - 1) / d_chunk_size d.
+(* every file's piece range is exact as well (File::set_range does not wrap) *)
+Theorem file_ranges_exact : forall b u d f,
+  int64_ok b = true -> load H b u = LOk d -> In f (d_files d) ->
+  f_r1 f = f_offset f / d_chunk_size d /\
+  f_r2 f = (if f_size f =? 0 then f_offset f / d_chunk_size d
+            else (f_offset f + f_size f + d_chunk_size d - 1) / d_chunk_size d) /\
+  f_offset f + f_size f <= d_size d.
 Proof.
-  intros b u d Hl Hs Hcs Hsmall. destruct (piece_count_guarantee _ _ _ Hl) as (Hz & Hc & _).
-  rewrite Hc. rewrite (N.mod_small (d_size d + d_chunk_size d - 1)).
-  - apply N.mod_small. exact Hsmall.
-  - unfold two63, two32, two64 in *. lia.
+  intros b u d f Hi Hl Hin.
+  destruct (piece_count_matches _ _ _ Hi Hl) as (Hcs & Hb & Ec & Hc32 & _).
+  destruct (load_inv _ _ _ Hl) as (_ & Fo & _ & _ & Hcs32 & Hr & _).
+  destruct Fo as [_ _ _ Hoff Hsum].
+  (* offsets: every file lies inside [0, total) *)
+  assert (Hin_tot : forall fs off, offsets_from off fs -> In f fs -> off <= f_offset f /\ f_offset f + f_size f <= off + sum_size fs).
+  { induction fs as [|g fs IH]; intros off Ho Hi'; [inversion Hi'|].
+    simpl in Ho. destruct Ho as [Hg Ho]. destruct Hi' as [->|Hi'].
+    - simpl. lia.
+    - destruct (IH _ Ho Hi') as [A B]. simpl. lia. }
+  destruct (Hin_tot _ _ Hoff Hin) as [_ Hle]. rewrite Hsum in Hle. simpl in Hle.
+  rewrite Forall_forall in Hr. specialize (Hr f Hin). unfold set_range in Hr.
+  apply N.eqb_neq in Hcs. rewrite Hcs in Hr. apply N.eqb_neq in Hcs.
+  assert (Q1 : f_offset f / d_chunk_size d < two32).
+  { eapply N.le_lt_trans; [|exact Hc32]. rewrite Ec. apply N.div_le_mono; [exact Hcs|]. lia. }
+  assert (E1 : u32 (f_offset f / d_chunk_size d) = f_offset f / d_chunk_size d) by (unfold u32; apply N.mod_small; exact Q1).
+  destruct (f_size f =? 0) eqn:Ez.
+  - rewrite E1 in Hr. inversion Hr. auto.
+  - assert (E2 : u64 (f_offset f + f_size f + d_chunk_size d - 1) = f_offset f + f_size f + d_chunk_size d - 1).
+    { unfold u64. apply N.mod_small. unfold two63, two32, two64 in *. lia. }
+    assert (Q2 : (f_offset f + f_size f + d_chunk_size d - 1) / d_chunk_size d < two32).
+    { eapply N.le_lt_trans; [|exact Hc32]. rewrite Ec. apply N.div_le_mono; [exact Hcs|]. lia. }
+    rewrite E1, E2 in Hr. unfold u32 in Hr. rewrite (N.mod_small _ _ Q2) in Hr. inversion Hr. auto.
 Qed.
 
 Theorem infohash_canonical : forall b u d m,
@@ -187,7 +255,7 @@ Theorem infohash_canonical : forall b u d m,
     (d_meta d = true -> d_infohash d = d_pieces d).
 Proof.
   intros b u d m Hl Em Hi.
-  destruct (load_inv _ _ _ Hl) as (_ & _ & _ & _ & _ & _ & _ & _ & _ & _ & Hh).
+  destruct (load_inv _ _ _ Hl) as (_ & _ & _ & _ & _ & _ & _ & _ & _ & _ & _ & Hh).
   destruct (Hh m Em Hi) as [_ X]. exact X.
 Qed.
 
@@ -195,7 +263,7 @@ Theorem unordered_rejected : forall b d m,
   as_map b = LOk m -> has_key_map m k_info = true -> load H b true <> LOk d.
 Proof.
   intros b d m Em Hi Hl.
-  destruct (load_inv _ _ _ Hl) as (_ & _ & _ & _ & _ & _ & _ & _ & _ & _ & Hh).
+  destruct (load_inv _ _ _ Hl) as (_ & _ & _ & _ & _ & _ & _ & _ & _ & _ & _ & Hh).
   destruct (Hh m Em Hi) as [X _]. discriminate.
 Qed.
 
@@ -204,38 +272,24 @@ Proof. intros b u d Hl. destruct (load_inv _ _ _ Hl) as (_ & _ & _ & _ & _ & _ &
 
 End Main.
 
-(* ------------------------------------------------------------ refutations (computed witnesses).
-   H0 stands for SHA-1 in these closed computations; the behaviour shown does not depend on the
-   hash value (only on it being non-zero). The same inputs are in gen/c08.py's hand list and are
-   replayed on the real code by every run. *)
+(* ------------------------------------------------------------ regression witnesses: the inputs
+   that refuted piece_count_matches / load_total before the fix commits are now rejected with an
+   input error. H0 stands for SHA-1 in these closed computations. *)
 Definition H0 (_ : bytes) : bytes := repeat 1 20.
 
 Definition mk_single (len pl : Z) (pieces : bytes) : value :=
   VMap [(k_info, VMap [(k_length, VInt len); (k_name, VStr [120]); (k_piece_length, VInt pl); (k_pieces, VStr pieces)])].
 
-(* C08-a: a declared length of 2^32 * 2048 bytes yields ZERO pieces and passes with no hashes *)
-Theorem piece_count_matches_refuted :
-  exists b d, load H0 b false = LOk d /\
-    d_chunks d <> (d_size d + d_chunk_size d - 1) / d_chunk_size d /\ d_pieces d = [] /\ d_chunks d = 0.
-Proof.
-  exists (mk_single 8796093022208 2048 []). eexists. split; [vm_compute; reflexivity|].
-  split; [vm_compute; discriminate|]. split; reflexivity.
-Qed.
+Example regress_piece_count_wrap : load H0 (mk_single 8796093022208 2048 []) false = LErr EInput.
+Proof. vm_compute. reflexivity. Qed.
+Example regress_pieces_surplus : load H0 (mk_single 100 2048 (repeat 17 60)) false = LErr EBencode.
+Proof. vm_compute. reflexivity. Qed.
+Example regress_pieces_ragged : load H0 (mk_single 100 2048 (repeat 17 21)) false = LErr EBencode.
+Proof. vm_compute. reflexivity. Qed.
 
-(* C08-b: surplus and ragged 'pieces' strings are accepted *)
-Theorem pieces_length_exact_refuted :
-  exists b d, load H0 b false = LOk d /\ d_chunks d = 1 /\ N.of_nat (length (d_pieces d)) = 41.
-Proof.
-  exists (mk_single 100 2048 (repeat 17 41)). eexists. split; [vm_compute; reflexivity|].
-  split; reflexivity.
-Qed.
-
-(* the all-zero info hash makes the loader throw internal_error (tracker::Manager::add_controller):
-   "never anything but an input error" is false of the code as it is *)
 Definition magnet_zero : bytes :=
   magnet_prefix ++ [120;116;61] ++ urn_btih ++ repeat 65 32.     (* magnet:?xt=urn:btih:AAAA...A *)
-
-Theorem load_total_refuted : forall H, load_uri H magnet_zero = LErr EInternal.
+Example regress_zero_hash : forall H, load_uri H magnet_zero = LErr EInput.
 Proof. intro H. vm_compute. reflexivity. Qed.
 
 (* non-vacuity examples *)
